@@ -11,7 +11,6 @@ RULE = ("DefaultApplicationConfig applications over seeded command trees x valid
         "--no-interaction -h --help -V --version) inserted at every position, sampled selections of 3, and the same tokens after "
         "'--'; handlers record the IO settings, write styled text at every verbosity level to both streams, ask a question with a "
         "default, or raise; non-trivial = >= 1 switch; distinct by (tree, line)")
-THEOREMS = ["settings_perm", "settings_insert", "settings_tail", "settings_table", "quiet_silences", "help_switch", "version_switch"]
 TRUSTED = ["bytes on the streams (escape sequences, help page text) are compared on the implementation side only: the model decides "
            "settings and the action taken"]
 ASSUMPTIONS = ["switches are recognised by exact token (-qn and --verbose are ordinary options for create_io)"]
